@@ -225,6 +225,9 @@ func genDepsProgram(r *rng.R, nkeys, nroots int, fatalZero bool) map[string]*dBo
 		default:
 			b.Out = dOut{Kind: "ok"}
 		}
+		if b.Out.Kind != "ok" && r.Chance(1, 6) {
+			b.Out.Msg = "" // a failure without text: mg.Fatal(code), errors.New(""), panic("")
+		}
 		if b.Sig == 2 && b.Out.Kind == "err" {
 			b.Out.Kind = "panicErr" // a func(int) cannot return an error
 		}
